@@ -40,3 +40,9 @@ C("C18",
   "Trusted: the integer formula in the monitor (taken from the documentation). Contexts are decoded from hand-built bytes; the policy is observed at AcceptableOptions::validate (what verify() calls first).",
   "exhaustive grid comparison with reference formula + pairwise monotonicity monitor + policy-semantics oracle",
   "DESIGN.md §5 C18")
+
+C("C11",
+  "Blake3/SHA3 wrappers are compared with the blake3/sha3 crates on canonical little-endian bytes (hash at every length 0..300, merge, merge_with_int, hash_elements under base/quadratic/cubic typing and alternative internal representations, three fields); the three Rescue hashers are compared with a textbook sponge in u128 reference arithmetic built from constants pinned in the harness (permutation, single rounds, hash at every length up to 4 rate blocks, hash_elements at every length up to 3 rates, sponge/Jive merges, merge_with_int on the integer classes below/at/above the modulus with pairwise injectivity), with boundary limbs and S-box pre-images of boundary Montgomery images in every state position; overflow checks police the frequency-domain MDS fast path; all six hashers must separate s, s||0^k, s||1 and the empty string.",
+  "Trusted: blake3/sha3 crates; the reference sponge and the constants copied at the pinned commit; absorption/padding conventions as documented per module (Jive: overwrite padding and Jive compression).",
+  "differential monitor against reference hash implementations + input-separation monitor (overflow-checks build)",
+  "DESIGN.md §5 C11")
